@@ -2,10 +2,14 @@ package phttp
 
 import (
 	"net/http/httptrace"
+	"sync"
 	"time"
 )
 
+// TraceTimings is filled by httptrace hooks, which the transport may call from its own goroutines,
+// some of them after the request has completed: every access goes through mu.
 type TraceTimings struct {
+	mu                   sync.Mutex
 	GotConnTime          time.Time
 	GetConnTime          time.Time
 	DNSStartTime         time.Time
@@ -17,18 +21,26 @@ type TraceTimings struct {
 }
 
 func (t *TraceTimings) GetReceiveTime() time.Duration {
+	t.mu.Lock()
+	defer t.mu.Unlock()
 	return time.Since(t.GotFirstResponseByte)
 }
 
 func (t *TraceTimings) GetConnectTime() time.Duration {
+	t.mu.Lock()
+	defer t.mu.Unlock()
 	return t.GotConnTime.Sub(t.GetConnTime)
 }
 
 func (t *TraceTimings) GetSendTime() time.Duration {
+	t.mu.Lock()
+	defer t.mu.Unlock()
 	return t.WroteRequestTime.Sub(t.GotConnTime)
 }
 
 func (t *TraceTimings) GetLatency() time.Duration {
+	t.mu.Lock()
+	defer t.mu.Unlock()
 	return t.GotFirstResponseByte.Sub(t.WroteRequestTime)
 }
 
@@ -36,28 +48,44 @@ func CreateHTTPTrace() (*httptrace.ClientTrace, *TraceTimings) {
 	timings := &TraceTimings{}
 	tracer := &httptrace.ClientTrace{
 		GetConn: func(_ string) {
+			timings.mu.Lock()
 			timings.GetConnTime = time.Now()
+			timings.mu.Unlock()
 		},
 		GotConn: func(_ httptrace.GotConnInfo) {
+			timings.mu.Lock()
 			timings.GotConnTime = time.Now()
+			timings.mu.Unlock()
 		},
 		DNSStart: func(_ httptrace.DNSStartInfo) {
+			timings.mu.Lock()
 			timings.DNSStartTime = time.Now()
+			timings.mu.Unlock()
 		},
 		DNSDone: func(info httptrace.DNSDoneInfo) {
+			timings.mu.Lock()
 			timings.DNSDoneTime = time.Now()
+			timings.mu.Unlock()
 		},
 		ConnectStart: func(network, addr string) {
+			timings.mu.Lock()
 			timings.ConnectStartTime = time.Now()
+			timings.mu.Unlock()
 		},
 		ConnectDone: func(network, addr string, err error) {
+			timings.mu.Lock()
 			timings.ConnectDoneTime = time.Now()
+			timings.mu.Unlock()
 		},
 		WroteRequest: func(wr httptrace.WroteRequestInfo) {
+			timings.mu.Lock()
 			timings.WroteRequestTime = time.Now()
+			timings.mu.Unlock()
 		},
 		GotFirstResponseByte: func() {
+			timings.mu.Lock()
 			timings.GotFirstResponseByte = time.Now()
+			timings.mu.Unlock()
 		},
 	}
 
